@@ -134,7 +134,12 @@ func zzC18_lin(pre, a1, a2, b1, b2, c1 int) {
 	if pre >= 0 {
 		env.do(ts, c18DecodeOp(pre))
 	}
+	// the mutable part of the object: every field from the share map on, except the lock itself (fields a change might
+	// add after the lock included); buffers reachable from these fields are shared too (stores need the write lock)
 	verifTrackShared(ts, unsafe.Offsetof(ts.shares), unsafe.Offsetof(ts.lock))
+	if end := unsafe.Offsetof(ts.lock) + unsafe.Sizeof(ts.lock); end < unsafe.Sizeof(*ts) {
+		verifTrackShared(ts, end, unsafe.Sizeof(*ts))
+	}
 	var res [5]c18Res
 	body := func(t int) func() {
 		return func() {
